@@ -85,7 +85,7 @@ Proof.
   apply bind_Ok in H. destruct H as [dfp [Hdfp H]].
   apply bind_Ok in H. destruct H as [b [_ H]].
   apply bind_Ok in H. destruct H as [rv [_ H]].
-  apply bind_Ok in H. destruct H as [[text i2'] [_ H]].
+  apply bind_Ok in H. destruct H as [text [_ H]].
   apply bind_Ok in H. destruct H as [rets [_ H]].
   destruct fname as [nm|]; [|discriminate]. injection H as _ Ha _ _ _ _. 
   exists ftype, afp, dfp. repeat split; try assumption. subst a. destruct kw; reflexivity.
@@ -209,7 +209,7 @@ Proof.
     apply bind_Ok in H0. destruct H0 as [dfp [_ H0]].
     apply bind_Ok in H0. destruct H0 as [b [_ H0]].
     apply bind_Ok in H0. destruct H0 as [rv [_ H0]].
-    apply bind_Ok in H0. destruct H0 as [[text i2'] [_ H0]].
+    apply bind_Ok in H0. destruct H0 as [text [_ H0]].
     apply bind_Ok in H0. destruct H0 as [rets [_ H0]].
     destruct fname as [nm|]; [|discriminate]. injection H0 as Hs _. subst s. eauto 6. }
   destruct Hs as [n [a [body [d [r Hs]]]]]. subst s.
@@ -232,8 +232,8 @@ Definition w6_ir : ir :=
 Lemma C06_function_refuted_lemma : ~ C06_function_statement.
 Proof.
   intros H.
-  specialize (H [] w6_ir (Some (L "f")) (Some (L "static")) true false (Ok ([], w6_ir))).
-  destruct (emit_function [] w6_ir (Some (L "f")) (Some (L "static")) true false (Ok ([], w6_ir))) as [[s i2]|e] eqn:E;
+  specialize (H [] w6_ir (Some (L "f")) (Some (L "static")) true false (Ok [])).
+  destruct (emit_function [] w6_ir (Some (L "f")) (Some (L "static")) true false (Ok [])) as [[s i2]|e] eqn:E;
     [|vm_compute in E; discriminate].
   specialize (H s i2 (Some (L "static")) eq_refl eq_refl). destruct H as [sg [H1 H2]].
   vm_compute in E. injection E as Es _. subst s.
@@ -242,7 +242,7 @@ Qed.
 
 (* the emitted signature of the witness: def f(x: int = None) *)
 Lemma C06_witness_signature :
-  exists s i2, emit_function [] w6_ir (Some (L "f")) (Some (L "static")) true false (Ok ([], w6_ir)) = Ok (s, i2)
+  exists s i2, emit_function [] w6_ir (Some (L "f")) (Some (L "static")) true false (Ok []) = Ok (s, i2)
                /\ option_map fst (py_signature_of s)
                   = Some [mkSig (L "x") PosOrKw (Some (EConst VNone)) (Some (EName (L "int")))].
 Proof. eexists. eexists. split; vm_compute; reflexivity. Qed.
@@ -297,15 +297,14 @@ Qed.
 Lemma flat_map_app' : forall {A B} (f : A -> list B) l1 l2, flat_map f (l1 ++ l2) = flat_map f l1 ++ flat_map f l2.
 Proof. intros. apply flat_map_app. Qed.
 
-(* the annotated attributes of the emitted class are the parameters (return entry folded in) of the IR
-   to_docstring left behind, in order *)
-Lemma emit_class_attr_names : forall pt i ec cn bs ds ww text i2 s i',
-    emit_class pt i ec cn bs ds ww (Ok (text, i2)) = Ok (s, i') ->
-    map (fun x => fst (fst x)) (class_attrs_of s) = od_keys (ir_params i2).
+(* the annotated attributes of the emitted class are the parameters of the IR, return entry folded in, in order *)
+Lemma emit_class_attr_names : forall pt i ec cn bs ds ww tds s i',
+    emit_class pt i ec cn bs ds ww tds = Ok (s, i') ->
+    map (fun x => fst (fst x)) (class_attrs_of s) = od_keys (ir_params (class_fold_returns i)).
 Proof.
-  intros pt i ec cn bs ds ww text i2 s i' H. unfold emit_class in H.
+  intros pt i ec cn bs ds ww tds s i' H. unfold emit_class in H.
   apply bind_Ok in H. destruct H as [ib [_ H]].
-  apply bind_Ok in H. destruct H as [[text' i2'] [Ht H]]. injection Ht as Ht1 Ht2. subst text' i2'.
+  apply bind_Ok in H. destruct H as [text [_ H]].
   apply bind_Ok in H. destruct H as [meth [Hm H]].
   apply bind_Ok in H. destruct H as [attrs [Ha H]].
   injection H as Hs _. subst s. unfold class_attrs_of. cbn [flat_map app].
@@ -319,7 +318,7 @@ Proof.
     destruct ib as [[|s0 rest]|].
     - injection Hm as Hm. subst meth. reflexivity.
     - injection Hm as Hm. subst meth. reflexivity.
-    - destruct (od_get (L "return_type") (ir_params i2)) as [p|]; [|discriminate].
+    - destruct (od_get (L "return_type") (ir_params (class_fold_returns i))) as [p|]; [|discriminate].
       destruct (gparam_nonempty p).
       + apply bind_Ok in Hm. destruct Hm as [m [Hcm Hm]]. injection Hm as Hm. subst meth.
         unfold call_meth_of_dict in Hcm. apply bind_Ok in Hcm. destruct Hcm as [dsm [_ Hcm]].
@@ -338,11 +337,11 @@ Proof.
   - unfold both_ends. cbn. destruct (last_c _); reflexivity.
 Qed.
 
-Lemma param2argparse_param_shape : forall pt ww edd name g s g',
-    param2argparse_param pt ww edd name g = Ok (s, g') ->
+Lemma param2argparse_param_shape : forall pt ww edd name g s,
+    param2argparse_param pt ww edd name g = Ok s ->
     exists kws, s = SExpr (ECall (EAttr argparser (L "add_argument")) (spec_option name) kws).
 Proof.
-  intros pt ww edd name g s g' H. unfold param2argparse_param in H.
+  intros pt ww edd name g s H. unfold param2argparse_param in H.
   apply bind_Ok in H. destruct H as [[[[[action choices] required] typ] g2] [_ H]].
   apply bind_Ok in H. destruct H as [[doc dflt_doc] [_ H]].
   apply bind_Ok in H. destruct H as [dflt_in [_ H]].
@@ -350,7 +349,7 @@ Proof.
   match type of H with (let '(_, _) := ?X in _) = _ => destruct X as [typ2 required2] end.
   apply bind_Ok in H. destruct H as [help [_ H]].
   apply bind_Ok in H. destruct H as [dkw [_ H]].
-  injection H as Hs _. subst s. unfold spec_option. eexists.
+  injection H as Hs. subst s. unfold spec_option. eexists.
   f_equal. f_equal. f_equal. apply set_value_option.
 Qed.
 
@@ -371,12 +370,11 @@ Proof.
   apply bind_Ok in H. destruct H as [spliced [_ H]].
   apply bind_Ok in H. destruct H as [ret [_ H]].
   destruct fname as [nm|]; [|discriminate]. injection H as _ _ Hb _ _ _. subst body.
-  exists (SExpr (set_value (VStr (indent tab dtext ++ tab)))), (description_assign desc), (map fst ps), (spliced ++ ret).
+  exists (SExpr (set_value (VStr (indent tab dtext ++ tab)))), (description_assign desc), ps, (spliced ++ ret).
   split; [now rewrite app_assoc|]. split; [reflexivity|]. split; [reflexivity|].
   apply map_outcome_Forall2 in Hps. clear -Hps.
   induction Hps as [|kv y l ys Hy Hr IH]; cbn; constructor; [|exact IH].
-  apply bind_Ok in Hy. destruct Hy as [[s g'] [Hp Hy]]. injection Hy as Hy. subst y. cbn [fst].
-  apply param2argparse_param_shape in Hp. destruct Hp as [kws Hs]. subst s. exists kws.
+  apply param2argparse_param_shape in Hy. destruct Hy as [kws Hs]. subst y. exists kws.
   unfold is_add_argument, argparser. rewrite !str_eqb_refl. reflexivity.
 Qed.
 
@@ -390,7 +388,7 @@ Definition w6_ir_ok : ir :=
 
 Lemma C06_nonvacuous_lemma :
   guard_C06_function w6_ir_ok = true
-  /\ exists s i2, emit_function [] w6_ir_ok (Some (L "f")) (Some (L "self")) true true (Ok ([], w6_ir_ok)) = Ok (s, i2)
+  /\ exists s i2, emit_function [] w6_ir_ok (Some (L "f")) (Some (L "self")) true true (Ok []) = Ok (s, i2)
                   /\ wf_python s = true.
 Proof. split; [reflexivity|]. eexists. eexists. split; vm_compute; reflexivity. Qed.
 
@@ -432,7 +430,7 @@ Proof.
     apply bind_Ok in H. destruct H as [dfp0 [_ H]].
     apply bind_Ok in H. destruct H as [b [_ H]].
     apply bind_Ok in H. destruct H as [rv [_ H]].
-    apply bind_Ok in H. destruct H as [[text i2'] [_ H]].
+    apply bind_Ok in H. destruct H as [text [_ H]].
     apply bind_Ok in H. destruct H as [rets [Hr H]]. injection Hr as Hr. subst rets.
     destruct fname as [nm|]; [|discriminate]. injection H as _ _ _ _ Hret _. now subst r.
 Qed.
